@@ -12,6 +12,7 @@ mod lex;
 mod load;
 mod merge;
 mod misc;
+mod tree2ast;
 mod unify;
 
 use serde_json::{json, Value};
@@ -54,6 +55,7 @@ fn handler(name: &str) -> Option<Handler> {
         "load" => load::load,
         "compile" => compile::compile,
         "merge" => merge::merge,
+        "tree2ast" => tree2ast::tree2ast,
         _ => return None,
     })
 }
